@@ -28,6 +28,7 @@ type Clause struct {
 	Text string
 	Expr ast.Expr
 	Line int
+	Tag  string // property the clause belongs to ("" = all); set by a `property Cxx` line in the block
 }
 
 type LoopSpec struct {
@@ -81,6 +82,7 @@ func parseContracts(src, pkgName, file string) ([]*Contract, map[string]*define,
 	var cur *Contract
 	var lastKind string
 	var lastAppend func(string)
+	curTag := ""
 	type defText struct {
 		d    *define
 		text *string
@@ -141,6 +143,7 @@ func parseContracts(src, pkgName, file string) ([]*Contract, map[string]*define,
 			c.File, c.Line = file, i+1
 			out = append(out, c)
 			cur = c
+			curTag = ""
 			lastAppend = nil
 			continue
 		}
@@ -151,6 +154,11 @@ func parseContracts(src, pkgName, file string) ([]*Contract, map[string]*define,
 			continue // free-standing comment (spec prose)
 		}
 		_ = lastKind
+		if word == "property" {
+			curTag = strings.TrimSpace(rest)
+			lastAppend = nil
+			continue
+		}
 		isDirective := directives[word] || (len(word) > 0 && word[0] >= 'a' && word[0] <= 'z' && isRawDirective(word))
 		if !isDirective {
 			if lastAppend == nil {
@@ -162,16 +170,16 @@ func parseContracts(src, pkgName, file string) ([]*Contract, map[string]*define,
 		line := i + 1
 		switch word {
 		case "requires":
-			cur.Requires = append(cur.Requires, Clause{Text: rest, Line: line})
+			cur.Requires = append(cur.Requires, Clause{Text: rest, Line: line, Tag: curTag})
 			c := cur
 			lastAppend = func(s string) { c.Requires[len(c.Requires)-1].Text += " " + s }
 		case "ensures":
-			cur.Ensures = append(cur.Ensures, Clause{Text: rest, Line: line})
+			cur.Ensures = append(cur.Ensures, Clause{Text: rest, Line: line, Tag: curTag})
 			c := cur
 			lastAppend = func(s string) { c.Ensures[len(c.Ensures)-1].Text += " " + s }
 		case "modifies":
 			for _, m := range splitTop(rest, ',') {
-				cur.Modifies = append(cur.Modifies, Clause{Text: strings.TrimSpace(m), Line: line})
+				cur.Modifies = append(cur.Modifies, Clause{Text: strings.TrimSpace(m), Line: line, Tag: curTag})
 			}
 			lastAppend = nil
 		case "let":
@@ -179,7 +187,7 @@ func parseContracts(src, pkgName, file string) ([]*Contract, map[string]*define,
 			if k < 0 {
 				return nil, nil, fmt.Errorf("%s:%d: let needs :=", file, line)
 			}
-			cur.Lets = append(cur.Lets, Let{Name: strings.TrimSpace(rest[:k]), Cl: Clause{Text: strings.TrimSpace(rest[k+2:]), Line: line}})
+			cur.Lets = append(cur.Lets, Let{Name: strings.TrimSpace(rest[:k]), Cl: Clause{Text: strings.TrimSpace(rest[k+2:]), Line: line, Tag: curTag}})
 			c := cur
 			lastAppend = func(s string) { c.Lets[len(c.Lets)-1].Cl.Text += " " + s }
 		case "nopanic":
@@ -208,15 +216,15 @@ func parseContracts(src, pkgName, file string) ([]*Contract, map[string]*define,
 			expr := strings.TrimSpace(rest[strings.Index(rest, f[1])+len(f[1]):])
 			switch f[1] {
 			case "invariant":
-				ls.Invariants = append(ls.Invariants, Clause{Text: expr, Line: line})
+				ls.Invariants = append(ls.Invariants, Clause{Text: expr, Line: line, Tag: curTag})
 				lastAppend = func(s string) { ls.Invariants[len(ls.Invariants)-1].Text += " " + s }
 			case "modifies":
 				for _, m := range splitTop(expr, ',') {
-					ls.Modifies = append(ls.Modifies, Clause{Text: strings.TrimSpace(m), Line: line})
+					ls.Modifies = append(ls.Modifies, Clause{Text: strings.TrimSpace(m), Line: line, Tag: curTag})
 				}
 				lastAppend = nil
 			case "decreases":
-				ls.Decreases = append(ls.Decreases, Clause{Text: expr, Line: line})
+				ls.Decreases = append(ls.Decreases, Clause{Text: expr, Line: line, Tag: curTag})
 				lastAppend = nil
 			default:
 				return nil, nil, fmt.Errorf("%s:%d: unknown loop clause %q", file, line, f[1])
@@ -235,7 +243,7 @@ func parseContracts(src, pkgName, file string) ([]*Contract, map[string]*define,
 					site = site[:h]
 				}
 			}
-			cur.Asserts = append(cur.Asserts, SiteAssert{Callee: site, Ord: ord, Cl: Clause{Text: strings.TrimSpace(rest[k+8:]), Line: line}})
+			cur.Asserts = append(cur.Asserts, SiteAssert{Callee: site, Ord: ord, Cl: Clause{Text: strings.TrimSpace(rest[k+8:]), Line: line, Tag: curTag}})
 			c := cur
 			lastAppend = func(s string) { c.Asserts[len(c.Asserts)-1].Cl.Text += " " + s }
 		default:
@@ -306,7 +314,7 @@ func parseContracts(src, pkgName, file string) ([]*Contract, map[string]*define,
 
 var rawDirectives = map[string]bool{
 	"kind": true, "effect": true, "governs": true, "ungoverned": true, "denial": true, "assume_stable": true,
-	"record_writer": true, "stream_writer": true, "property": true, "pure": true, "gate": true, "note": true,
+	"record_writer": true, "stream_writer": true, "pure": true, "gate": true, "note": true,
 	"expect": true, "replay": true, "first_defer": true, "balance": true, "guarded_by": true, "crash_atomic": true,
 	"wire": true, "cursor": true, "split": true, "roundtrip": true, "anyname": true, "site": true,
 }
@@ -473,4 +481,31 @@ func expandCursor(c *Contract, spec string) error {
 	add(&c.Ensures, fmt.Sprintf("%s(%s) == W", w, x))
 	c.NoPanic = true
 	return nil
+}
+
+// filterProperty drops the clauses that belong to another property.
+func (c *Contract) filterProperty(prop string) {
+	keep := func(cs []Clause) []Clause {
+		var out []Clause
+		for _, cl := range cs {
+			if cl.Tag == "" || prop == "" || cl.Tag == prop {
+				out = append(out, cl)
+			}
+		}
+		return out
+	}
+	c.Requires = keep(c.Requires)
+	c.Ensures = keep(c.Ensures)
+	c.Modifies = keep(c.Modifies)
+	var as []SiteAssert
+	for _, a := range c.Asserts {
+		if a.Cl.Tag == "" || prop == "" || a.Cl.Tag == prop {
+			as = append(as, a)
+		}
+	}
+	c.Asserts = as
+	for _, l := range c.Loops {
+		l.Invariants = keep(l.Invariants)
+		l.Modifies = keep(l.Modifies)
+	}
 }
